@@ -21,8 +21,11 @@ def scenario(seed):
     probs = []
     d = tempfile.mkdtemp(prefix="c12_")
     try:
-        fname = os.path.join(d, "a.vhd").replace(os.sep, "/")
-        open(fname, "w").write("entity e is\nend entity e;\n")
+        # the file is named the same way in the configuration and on the command line; the spelling need not be normalised
+        os.mkdir(os.path.join(d, "sub"))
+        spelling = r.choice(["a.vhd", "a.vhd", "./a.vhd", "/a.vhd", "sub/../a.vhd"])
+        fname = (d + "/" + spelling).replace(os.sep, "/")
+        open(os.path.join(d, "a.vhd"), "w").write("entity e is\nend entity e;\n")
         oFile = vf.vhdlFile(["entity e is", "end entity e;"], sFilename=fname)
         probe = rule_list.rule_list(oFile, severity.create_list({}))
         cands = [o for o in probe.rules if not o.deprecated and o.groups]
@@ -124,6 +127,6 @@ def scenario(seed):
                 probs.append("%s %s in the configuration is silently ignored" % (why, bad))
             except ConfigurationError:
                 pass
-        return (seed, probs, {"rule": target.unique_id, "attr": attr, "levels": used})
+        return (seed, probs, {"rule": target.unique_id, "attr": attr, "levels": used, "file_spelling": spelling})
     finally:
         shutil.rmtree(d, ignore_errors=True)
